@@ -1,0 +1,67 @@
+//go:build verif
+
+// Contracts for the deductive verifier in /verif (comment-only file; compiled out
+// unless the build tag `verif` is set, and even then contains no executable code).
+package v2
+
+// ---- invalid input is refused without side effects (property C18) ----
+// Observer-style contracts of the point handlers: exactly one response is written; a request that
+// does not decode/validate, or a point that fails the schema check, has no id, cannot be encoded
+// or exceeds the plan's point size, is answered 400 before the cluster is called at all; the
+// cluster is called only with points that passed every check, each within the size limit; 200 is
+// only sent after the cluster call returned without error. (The collection in the request context
+// is put there by the collection middleware: the type assertion is not checked here.)
+//@ func (*SemaDBHandlers).HandleInsertPoints
+//@   property C18
+//@   safety -overflow -nil -typeassert
+//@   requires sdbh.clusterNode.cfg.MaxShardPointCount >= 1 && sdbh.clusterNode.cfg.MaxShardPointCount <= 4611686018427387904 && sdbh.clusterNode.cfg.MaxShardSize >= 0 && sdbh.clusterNode.cfg.MaxShardSize <= 4611686018427387904
+//@   before Encode requires ncalls(InsertPoints) == 0 ==> arg1 == 400
+//@   before Encode requires arg1 == 200 ==> ncalls(InsertPoints) == 1 && callres(InsertPoints, 1, 1) == nil
+//@   before ExtractIdField requires callres(CheckCompatibleMap, 1, 0) == nil && callarg(CheckCompatibleMap, 1, 1) == arg0
+//@   before Marshal requires callres(ExtractIdField, 1, 1) == nil
+//@   before InsertPoints requires callres(DecodeValid, 1, 1) == nil && len(arg2) == len(req.Points) && forall(j, 0, len(arg2), len(arg2[j].Data) <= collection.UserPlan.MaxPointSize)
+//@   ensures ncalls(Encode) == 1 && ncalls(InsertPoints) <= 1
+//@   ensures callres(DecodeValid, 1, 1) != nil ==> ncalls(InsertPoints) == 0
+//@   loop 1 invariant rangeindex >= -1 && rangeindex < len(req.Points) && len(points) == len(req.Points) && ncalls(Encode) == 0 && ncalls(InsertPoints) == 0
+//@   loop 1 invariant forall(j, 0, rangeindex+1, len(points[j].Data) <= collection.UserPlan.MaxPointSize)
+
+//@ func (*SemaDBHandlers).HandleUpdatePoints
+//@   property C18
+//@   safety -overflow -nil -typeassert
+//@   before Encode requires ncalls(UpdatePoints) == 0 ==> arg1 == 400
+//@   before Encode requires arg1 == 200 ==> ncalls(UpdatePoints) == 1 && callres(UpdatePoints, 1, 1) == nil
+//@   before CheckCompatibleMap requires callres(ExtractIdField, 1, 1) == nil
+//@   before Marshal requires callres(CheckCompatibleMap, 1, 0) == nil && callarg(CheckCompatibleMap, 1, 1) == arg0
+//@   before UpdatePoints requires callres(DecodeValid, 1, 1) == nil && len(arg2) == len(req.Points) && forall(j, 0, len(arg2), len(arg2[j].Data) <= collection.UserPlan.MaxPointSize)
+//@   ensures ncalls(Encode) == 1 && ncalls(UpdatePoints) <= 1
+//@   ensures callres(DecodeValid, 1, 1) != nil ==> ncalls(UpdatePoints) == 0
+//@   loop 1 invariant rangeindex >= -1 && rangeindex < len(req.Points) && len(points) == len(req.Points) && ncalls(Encode) == 0 && ncalls(UpdatePoints) == 0
+//@   loop 1 invariant forall(j, 0, rangeindex+1, len(points[j].Data) <= collection.UserPlan.MaxPointSize)
+
+// Search: the cluster is asked only after the request decoded and validated and the query passed
+// the schema check of the addressed collection (vector lengths match the index dimensions - see
+// Query.ValidateSchema in package models); everything refused before that is a 400.
+// Assumed (listed): a decoded request passed its own Validate (proved separately for DecodeValid and
+// SearchRequest.Validate), and the collection the middleware put into the context has a well-formed
+// stored schema (every vector index entry carries its parameter block, as schema validation at
+// collection creation guarantees).
+//@ func (*SemaDBHandlers).HandleSearchPoints
+//@   property C18
+//@   safety -overflow -nil -typeassert
+//@   after DecodeValid assume result1 == nil ==> result0.Limit >= 1 && result0.Limit <= 100 && result0.Offset >= 0
+//@   after Value assume forallv(k string, contains(dyn(result, models.Collection).IndexSchema, k) ==> (dyn(result, models.Collection).IndexSchema[k].Type == "vectorFlat" ==> dyn(result, models.Collection).IndexSchema[k].VectorFlat != nil) && (dyn(result, models.Collection).IndexSchema[k].Type == "vectorVamana" ==> dyn(result, models.Collection).IndexSchema[k].VectorVamana != nil))
+//@   before Encode requires ncalls(SearchPoints) == 0 ==> arg1 == 400
+//@   before Encode requires arg1 == 200 ==> ncalls(SearchPoints) == 1 && callres(SearchPoints, 1, 1) == nil
+//@   before SearchPoints requires callres(DecodeValid, 1, 1) == nil && callres(ValidateSchema, 1, 0) == nil && callarg(ValidateSchema, 1, 1) == arg1.IndexSchema && arg2.Limit >= 1
+//@   ensures ncalls(Encode) == 1 && ncalls(SearchPoints) <= 1
+//@   loop 1 invariant rangeindex >= -1 && rangeindex < len(points) && len(results) == len(points) && ncalls(Encode) == 0 && ncalls(SearchPoints) == 1 && callres(SearchPoints, 1, 1) == nil
+
+// Delete: ids are parsed only after validation accepted them; nothing reaches the cluster otherwise.
+//@ func (*SemaDBHandlers).HandleDeletePoints
+//@   property C18
+//@   safety -overflow -nil -typeassert
+//@   before Encode requires ncalls(DeletePoints) == 0 ==> arg1 == 400
+//@   before Encode requires arg1 == 200 ==> ncalls(DeletePoints) == 1 && callres(DeletePoints, 1, 1) == nil
+//@   before DeletePoints requires callres(DecodeValid, 1, 1) == nil && len(arg2) == len(req.Ids)
+//@   ensures ncalls(Encode) == 1 && ncalls(DeletePoints) <= 1
+//@   loop 1 invariant rangeindex >= -1 && rangeindex < len(req.Ids) && len(pointIds) == len(req.Ids) && ncalls(Encode) == 0 && ncalls(DeletePoints) == 0
